@@ -63,6 +63,12 @@ pub fn convert_number(
     type_space.verif_convert_number(metadata, validation, format)
 }
 
+/// `TypeSpace::convert_string` on a schema with only a `format`: the selected
+/// type ("String" or the path of the native type).
+pub fn convert_string_format(type_space: &mut TypeSpace, format: &Option<String>) -> Result<String, ()> {
+    type_space.verif_convert_string_format(format)
+}
+
 /// `util::StringValidator::new(..)?.is_valid(s)`; `None` if construction
 /// fails.
 pub fn string_validator_is_valid(validation: Option<&StringValidation>, s: &str) -> Option<bool> {
